@@ -2,13 +2,27 @@
 
 spec/Mapping.tla        Placements (induced embeddings matching residue/atom names and the same-residue relation on bonds),
                         order by lowest atom key, ApplyBlock (fresh keys, residue shift of the last particle, constituents and
-                        weights, particles built from no atom), InterEdges, UnmappedHeavy, Overlapping; Mean (exact weighted mean)
-spec/Trace_Mapping.tla  TLC judges recorded runs of the real DoMapping (+ interposed apply_block_mapping) and DoAverageBead
+                        weights, particles built from no atom), InterEdges, UnmappedHeavy, Overlapping; Mean (exact weighted mean).
+                        Generic form (G*): attribute-wise node matching as the two matchers of do_mapping compare, modification
+                        groups, GCover (which modification mappings are needed), placements of modification mappings, merged
+                        order of blocks and modifications (block_sort_key / mod_sort_key), GApplyMod (re-used / new particles,
+                        re-weighting, bonds, add-or-replace of interactions), bonds between placements, the four warnings
+spec/Trace_Mapping.tla  TLC judges recorded runs of the real DoMapping (+ interposed apply_block_mapping / apply_mod_mapping):
+                        JudgeMap (block universe), JudgeMapX (generic form: every clause evaluated), JudgeCover; DoAverageBead
+spec/MappingCover.tla   TLC: GCover (shaped like cover()) = the first exact cover in option order, on every small input; the
+                        table is replayed into the real cover()
 
-A synthetic universe of two force fields covers the statement's list: one-to-one, many-to-one, an atom shared between two
-particles, a zero-weight atom, a particle built from no atom, a two-residue mapping, unmapped heavy atoms and hydrogens,
-overlapping placements; molecules are linear, branched or cyclic residue sequences under identity / reversed / sparse
-shuffled node numbering."""
+Families
+ block universe   two synthetic force fields: one-to-one, many-to-one, an atom shared between two particles, a zero-weight
+                  atom, a particle built from no atom, a two-residue mapping, unmapped heavy atoms and hydrogens, overlapping
+                  placements; linear / branched / cyclic residue sequences, identity / reversed / sparse shuffled node keys
+ modifications    the same universe plus modification mappings: terminus-like ones that change a particle and re-weight it
+                  (MT, MN, an optional two-name mapping MN+MT preferred by the cover), one that adds a particle, replaces a
+                  block interaction and has an unlabelled from-node (MP), one spanning two residues (MX), one that only creates
+                  a particle and is therefore ordered by its lowest atom (MS), one without mapping (MU); molecules carry the
+                  'modifications' / 'PTM_atom' attributes as CanonicalizeModifications leaves them (whole residue labelled)
+ real             harness/c01_real.py: the martinize2 front end in-process on the tier-0 structures, shipped force fields and
+                  mappings, projected generically, judged by the same operators"""
 import logging
 import multiprocessing as mp
 import random
@@ -316,6 +330,334 @@ def judge_events(events, ev, vd, kinds=('map', 'avg')):
             if v != 'ok':
                 vd.violation('trace-rejected', e, '%s: %s' % (e['kind'], v))
     return stats, events
+
+
+# ---------------------------------------------------------------------------------------------------------------------
+# modification universe (generic form; judged by Trace_Mapping!JudgeMapX)
+
+# modification -> (residue type it sits on, PTM atoms [(name, element, bonded to)])
+XMODS = {
+    'MT': ('RA', [('XT', 'O', 'A2')]),
+    'MN': ('RA', [('XN', 'H', 'A1')]),
+    'MP': ('RB', [('XP', 'P', 'B3'), ('XO', 'O', 'XP')]),
+    'MU': ('RD', [('XU', 'N', 'D1')]),                     # no mapping known
+    'MS': ('RE', [('XS', 'C', 'E1')]),
+}
+# modification mappings: names, from-nodes [(atomname, labelled with the modification?, PTM atom?, element or None)],
+# from-edges, to-nodes [(atomname, PTM (new particle)?, atype, replacement atype)], to-edges, interactions, weights
+XMODMAPS = [
+    {'names': ('MT',), 'from': [('A2', True, False, None), ('XT', True, True, 'O')], 'fedges': [('A2', 'XT')],
+     'to': [('P2', False, None, 'Qt')], 'tedges': [], 'inters': [], 'w': [('A2', 'P2', 1), ('XT', 'P2', 1)]},
+    {'names': ('MN',), 'from': [('A1', True, False, None), ('XN', True, True, 'H')], 'fedges': [('A1', 'XN')],
+     'to': [('P1', False, None, 'Qn')], 'tedges': [], 'inters': [], 'w': [('A1', 'P1', 2), ('XN', 'P1', 0)]},
+    {'names': ('MN', 'MT'), 'optional': True,
+     'from': [('A1', True, False, None), ('XN', True, True, None), ('A2', True, False, None), ('XT', True, True, None)],
+     'fedges': [('A1', 'XN'), ('A1', 'A2'), ('A2', 'XT')],
+     'to': [('P1', False, None, 'Qz'), ('P2', False, None, 'Qz')], 'tedges': [('P1', 'P2')],
+     'inters': [('bonds', ['P1', 'P2'], ['1', '0.31', '501'])],
+     'w': [('A1', 'P1', 1), ('XN', 'P1', 1), ('A2', 'P2', 1), ('XT', 'P2', 1)]},
+    {'names': ('MP',), 'from': [('B2', False, False, None), ('B3', True, False, None), ('XP', True, True, 'P'), ('XO', True, True, 'O')],
+     'fedges': [('B2', 'B3'), ('B3', 'XP'), ('XP', 'XO')],
+     'to': [('BB', False, None, None), ('SC', False, None, 'SNx'), ('PO', True, 'Qa', None)], 'tedges': [('SC', 'PO')],
+     'inters': [('bonds', ['BB', 'SC'], ['1', '0.41', '901']), ('bonds', ['SC', 'PO'], ['1', '0.47', '1250'])],
+     'w': [('B2', 'BB', 3), ('B3', 'SC', 1), ('XP', 'PO', 1), ('XO', 'PO', 1)]},
+    {'names': ('MX',), 'from': [('C3', True, False, None), ('XL', True, True, 'S'), ('D2', True, False, None)],
+     'fedges': [('C3', 'XL'), ('XL', 'D2')],
+     'to': [('Y', False, None, None), ('L', True, 'Lk', None), ('Q', False, None, 'Qx')], 'tedges': [('Y', 'L'), ('L', 'Q')],
+     'inters': [('bonds', ['Y', 'L'], ['1', '0.2', '7']), ('bonds', ['L', 'Q'], ['1', '0.2', '8'])],
+     'w': [('C3', 'Y', 1), ('XL', 'L', 1), ('D2', 'Q', 1)]},
+    {'names': ('MS',), 'from': [('XS', True, True, 'C')], 'fedges': [],
+     'to': [('PS', True, 'Cs', None)], 'tedges': [], 'inters': [], 'w': [('XS', 'PS', 1)]},
+]
+
+
+def make_molecule_x(rng):
+    """Abstract description of a molecule with modifications: atoms [{resid, resname, atomname, element, mods (None = no
+    attribute), ptm}], bonds, node keys, insertion order."""
+    n = rng.randint(2, 6)
+    seq = []
+    while len(seq) < n:
+        t = rng.choice(['RA', 'RA', 'RB', 'RB', 'RC', 'RD', 'RD', 'RE', 'RF', 'RZ'])
+        seq.append(t)
+        if t == 'RF' and rng.random() < 0.8:
+            seq.append('RG')
+        if t == 'RC' and rng.random() < 0.6:
+            seq.append('RD')
+    resmods = []
+    for t in seq:
+        m = []
+        if t == 'RA':
+            m = rng.choice([[], ['MT'], ['MN'], ['MN', 'MT'], ['MT', 'MN'], ['MT']])
+        elif t == 'RB' and rng.random() < 0.55:
+            m = ['MP']
+        elif t == 'RD' and rng.random() < 0.2:
+            m = ['MU']
+        elif t == 'RE' and rng.random() < 0.6:
+            m = ['MS']
+        resmods.append(list(m))
+    cross = None
+    rcs = [i for i, t in enumerate(seq) if t == 'RC']
+    rds = [i for i, t in enumerate(seq) if t == 'RD']
+    if rcs and rds and rng.random() < 0.6:
+        cross = (rng.choice(rcs), rng.choice(rds))
+        resmods[cross[0]].append('MX')
+        resmods[cross[1]].append('MX')
+    nodes, edges, late = [], [], []
+    firsts, lasts, byname = [], [], []
+    resid = rng.choice([1, 3, 20])
+    for i, t in enumerate(seq):
+        atoms, bonds = RES[t]
+        mods = list(resmods[i]) if resmods[i] else ([] if rng.random() < 0.15 else None)
+        idx0 = len(nodes)
+        names = {}
+        for name, el in atoms:
+            names[name] = len(nodes)
+            nodes.append({'resid': resid, 'resname': t, 'atomname': name, 'element': el, 'mods': mods, 'ptm': False})
+        for a, b in bonds:
+            edges.append((idx0 + a, idx0 + b))
+        if rng.random() < 0.4:
+            nodes.append({'resid': resid, 'resname': t, 'atomname': 'HX', 'element': 'H', 'mods': mods, 'ptm': False})
+            edges.append((idx0, len(nodes) - 1))
+        ptm = []
+        for m in resmods[i]:
+            if m in XMODS:
+                ptm += [(nm, el, to) for nm, el, to in XMODS[m][1]]
+        if cross and cross[0] == i:
+            ptm.append(('XL', 'S', 'C3'))
+        at_end = rng.random() < 0.4          # RepairGraph appends the atoms it adds at the end of the molecule
+        for nm, el, to in ptm:
+            nd = {'resid': resid, 'resname': t, 'atomname': nm, 'element': el, 'mods': mods, 'ptm': True}
+            if at_end:
+                late.append((nd, i, to, nm))
+            else:
+                names[nm] = len(nodes)
+                nodes.append(nd)
+                edges.append((names[to], names[nm]))
+        byname.append(names)
+        firsts.append(idx0)
+        lasts.append(idx0 + len(atoms) - 1)
+        resid += rng.choice([1, 1, 2])
+    for nd, i, to, nm in late:
+        byname[i][nm] = len(nodes)
+        nodes.append(nd)
+        edges.append((byname[i][to], byname[i][nm]))
+    if cross:
+        edges.append((byname[cross[0]]['XL'], byname[cross[1]]['D2']))
+    for i in range(1, len(seq)):
+        j = i - 1 if rng.random() < 0.8 else rng.randrange(i)
+        edges.append((lasts[j], firsts[i]))
+    if len(seq) >= 3 and rng.random() < 0.2:
+        edges.append((firsts[0], lasts[-1]))
+    mode = rng.choice(['identity', 'reversed', 'sparse'])
+    n_at = len(nodes)
+    if mode == 'identity':
+        ids = list(range(n_at))
+    elif mode == 'reversed':
+        ids = list(range(n_at - 1, -1, -1))
+    else:
+        ids = rng.sample(range(0, 3 * n_at + 5), n_at)
+    order = list(range(n_at))
+    if rng.random() < 0.5:
+        rng.shuffle(order)
+    return {'atoms': [dict(nd, id=ids[i]) for i, nd in enumerate(nodes)],
+            'bonds': sorted({(min(ids[a], ids[b]), max(ids[a], ids[b])) for a, b in edges if a != b}),
+            'insertion': [ids[i] for i in order], 'numbering': mode,
+            'use_alt': rng.random() < 0.15, 'use_combined': rng.random() < 0.5}
+
+
+def build_real_x(desc):
+    """Real Molecule, Modification and Mapping objects of the modification universe."""
+    import numpy as np
+    from vermouth.molecule import Molecule, Block, Interaction, Modification
+    from vermouth.forcefield import ForceField
+    from vermouth.map_parser import Mapping
+    ff_aa, ff_cg = ForceField(name='verif_aa'), ForceField(name='verif_cg')
+    aamods = {}
+    for name in list(XMODS) + ['MX']:
+        mod = Modification(force_field=ff_aa, name=name)
+        aamods[name] = mod
+    mol = Molecule(force_field=ff_aa)
+    byid = {a['id']: a for a in desc['atoms']}
+    for nid in desc['insertion']:
+        a = byid[nid]
+        attrs = dict(resid=a['resid'], resname=a['resname'], atomname=a['atomname'], element=a['element'], chain='A',
+                     position=np.array([0.1 * (nid % 7), 0.05 * nid, 0.0]))
+        if a['mods'] is not None:
+            attrs['modifications'] = [aamods[m] for m in a['mods']]
+        if a['ptm']:
+            attrs['PTM_atom'] = True
+        mol.add_node(nid, **attrs)
+    mol.add_edges_from(desc['bonds'])
+    mappings = {}
+    for am in MAPS:
+        if am.get('optional') and not desc['use_alt']:
+            continue
+        bf = Block(force_field=ff_aa)
+        for k, r, rn in am['from']:
+            bf.add_node(k, atomname=k, resname=rn, resid=r)
+        bf.add_edges_from(am['fedges'])
+        bt = Block(force_field=ff_cg, nrexcl=1)
+        bt.name = am['name']
+        for cg, (k, r) in enumerate(am['to'], 1):
+            bt.add_node(k, atomname=k, resname='X' + am['name'][:2], resid=r, atype='T' + k, charge_group=cg)
+        bt.add_edges_from(am['tedges'])
+        for t, atoms, params in am['inters']:
+            bt.interactions.setdefault(t, []).append(Interaction(atoms=tuple(atoms), parameters=list(params), meta={}))
+        weights = {}
+        for fk, tk, w in am['w']:
+            weights.setdefault(fk, {})[tk] = w
+        mappings[am['name']] = Mapping(bf, bt, weights, {}, ff_from=ff_aa, ff_to=ff_cg, extra=(), normalize_weights=False,
+                                       type='block', names=(am['name'],))
+    for xm in XMODMAPS:
+        if xm.get('optional') and not desc['use_combined']:
+            continue
+        patt = Modification(force_field=ff_aa, name='+'.join(xm['names']))
+        for nm, labelled, ptm, el in xm['from']:
+            attrs = {'atomname': nm, 'resid': 1}
+            if labelled:
+                owner = [m for m in xm['names'] if m == 'MX' or any(nm == p[0] for p in XMODS[m][1])] or list(xm['names'])
+                if not ptm:
+                    owner = [m for m in xm['names'] if m == 'MX' or XMODS[m][1][0][2] == nm] or list(xm['names'])
+                attrs['modifications'] = [aamods[m] for m in owner[:1]]
+                attrs['PTM_atom'] = ptm
+            if el:
+                attrs['element'] = el
+            patt.add_node(nm, **attrs)
+        patt.add_edges_from(xm['fedges'])
+        target = Modification(force_field=ff_cg, name='+'.join(xm['names']))
+        for cg, (nm, ptm, atype, ratype) in enumerate(xm['to'], 1):
+            attrs = {'atomname': nm, 'PTM_atom': ptm}
+            if ptm:
+                attrs.update(atype=atype, resid=1, charge_group=1)
+            if ratype:
+                attrs['replace'] = {'atype': ratype}
+            target.add_node(nm, **attrs)
+        target.add_edges_from(xm['tedges'])
+        for t, atoms, params in xm['inters']:
+            target.add_interaction(t, list(atoms), list(params))
+        weights = {}
+        for fk, tk, w in xm['w']:
+            weights.setdefault(fk, {})[tk] = w
+        mappings[tuple(xm['names'])] = Mapping(patt, target, weights, {}, ff_from=ff_aa, ff_to=ff_cg, extra=(),
+                                               normalize_weights=False, type='modification', names=tuple(xm['names']))
+    return mol, {'verif_aa': {'verif_cg': mappings}}, ff_cg
+
+
+def x_event(desc):
+    from . import c01_real
+    mol, mappings, ff_cg = build_real_x(desc)
+    out, e = c01_real.make_event(mol, mappings, ff_cg, 'modifications', desc['numbering'], attribute_keep=('chain',))
+    e['numbering'] = desc['numbering']
+    return e
+
+
+def _run_chunk_x(args):
+    n, seed = args
+    rng = random.Random(seed)
+    events = []
+    for i in range(n):
+        desc = make_molecule_x(rng)
+        e = x_event(desc)
+        e['scenario'] = {'xseed': seed, 'xindex': i}
+        events.append(e)
+    return events
+
+
+def cover_events(rng, n):
+    """Direct calls of the real cover() with the option list as modification_matches builds it."""
+    import vermouth.processors.do_mapping as dm
+    events = []
+    for _ in range(n):
+        universe = 'abcd'[:rng.randint(2, 4)]
+        known = {}
+        for _k in range(rng.randint(0, 5)):
+            names = tuple(rng.sample(universe, rng.randint(1, min(3, len(universe)))))
+            known.setdefault(names, len(known) + 1)
+        group = set(rng.sample(universe, rng.randint(1, len(universe))))
+        res = dm.cover(list(group), sorted(known, key=len, reverse=True))
+        events.append({'kind': 'cover', 'mps': [{'type': 'modification', 'names': list(k)} for k in known],
+                       'names': sorted(group), 'found': res is not None, 'sel': [known[k] for k in (res or [])], 'family': 'cover'})
+    return events
+
+
+def _judge_x(shard):
+    from . import c01_real
+    work = tlc.scratch('c01x_')
+    tf = tlc.write_json(work, 'trace.json', [c01_real.slim(e) for e in shard])
+    res = tlc.run('Trace_Mapping', 'SPECIFICATION Spec\n', dump=True, env={'TRACE_FILE': tf}, workdir=work, workers=1, timeout=3400)
+    return res.distinct, res.generated, {st['tid']: st['verdict'] for st in res.states() if st['verdict'] != 'pending'}, res.wall
+
+
+RESID_CLAUSES = {'residues-not-renumbered-consecutively', 'new-particle-not-in-the-residue-it-modifies'}
+
+
+def _adds_particle(scenario):
+    """Some applied modification placement creates a particle (its mapping has a to-node flagged as new)."""
+    for a in scenario.get('applied', []):
+        if a.get('kind') == 'mod' and 0 < a.get('m', 0) <= len(scenario.get('mps', [])):
+            if any(t.get('ptm') for t in scenario['mps'][a['m'] - 1]['to']['nodes']):
+                return True
+    return False
+
+
+def _is_d18(kind, scenario):
+    """Known finding: a particle created by a modification mapping keeps the residue number written in the modification
+    (1 for every shipped one) and the blocks merged after it continue from that number.  Signature: the run applied a
+    modification placement that creates a particle, and the only clauses that fail are the two residue-number clauses."""
+    fails = set(scenario.get('failed_clauses') or [])
+    return kind == 'trace-rejected' and bool(fails) and fails <= RESID_CLAUSES and _adds_particle(scenario)
+
+
+SIGNATURES = {'D18': _is_d18}
+
+
+def judge_x(events, ev, vd, stats):
+    """Shard, let TLC judge, turn verdicts into violations (one per event, listing every failed clause)."""
+    if not events:
+        return
+    shards = common.chunks(events, tlc.NCPU)
+    with mp.Pool(len(shards)) as pool:
+        outs = pool.map(_judge_x, shards)
+    for shard, (d, g, verdicts, wall) in zip(shards, outs):
+        ev.states += d
+        ev.transitions += g
+        stats['tlc_wall_max'] = max(stats.get('tlc_wall_max', 0.0), round(wall, 1))
+        for i, e in enumerate(shard, 1):
+            ev.traces += 1
+            ev.evaluations += 1
+            v = verdicts.get(i, 'no-verdict')
+            fam = e.get('family', e['kind'])
+            if v.startswith('unjudged:'):
+                stats.setdefault('unjudged', {}).setdefault(v[9:], 0)
+                stats['unjudged'][v[9:]] += 1
+                if e.get('err') and not e.get('raised'):
+                    vd.violation('trace-rejected', dict(e, failed_clauses=[e['err']]), '%s: %s' % (fam, e['err']))
+                continue
+            stats.setdefault('judged', {}).setdefault(fam, 0)
+            stats['judged'][fam] += 1
+            if e['kind'] == 'mapx':
+                kinds = [a['kind'] for a in e['applied']]
+                if 'mod' in kinds:
+                    stats['runs_with_modification_placements'] = stats.get('runs_with_modification_placements', 0) + 1
+                    ev.nontrivial_case([e['M'], len(e['mps']), e['applied']])
+                for a in e['applied']:
+                    if a['kind'] == 'mod' and a['m']:
+                        nm = '+'.join(e['mps'][a['m'] - 1]['names'])
+                        stats.setdefault('modification_mappings_applied', {}).setdefault(nm, 0)
+                        stats['modification_mappings_applied'][nm] += 1
+                # a modification applied before a later block / before the first block
+                if any(k == 'mod' and 'block' in kinds[j + 1:] for j, k in enumerate(kinds)):
+                    stats['runs_mod_before_a_block'] = stats.get('runs_mod_before_a_block', 0) + 1
+                for k in ('warn_unmapped', 'warn_overlap', 'warn_modoverlap'):
+                    if e[k]:
+                        stats[k] = stats.get(k, 0) + 1
+                if e['n_nomodmap']:
+                    stats['runs_modification_without_mapping'] = stats.get('runs_modification_without_mapping', 0) + 1
+            fails = [] if v == 'ok' else v.split(';')
+            if e.get('err'):
+                fails.append(e['err'])
+            if fails:
+                vd.violation('trace-rejected', dict(e, failed_clauses=fails), '%s %s: %s' % (fam, e.get('label', ''), '; '.join(fails)))
 
 
 def run(tier, seed, ev, vd):
